@@ -91,14 +91,14 @@ def check_single_decomposer(prog, chk, rule: str):
 
 
 # ----------------------------------------------------------------------------- R15.1b
-def r151b(prog, chk):
+def r151b(prog, chk, rule="R15.1b"):
     ix = prog.ix
     d = ix.get_func("ufo2ft.util:decomposeCompositeGlyph")
     g = d.params()[0]
     pens = [c for c in A.body_nodes(d.node) if isinstance(c, ast.Call) and A.callee_name(c) == "DecomposingFilterPointPen"]
     need(len(pens) == 1, f"cannot interpret {d.short}")
     ok = T(pens[0].args[0]) == f"{g}.getPointPen()" and T(pens[0].args[1]) == d.params()[1]
-    chk.ob("R15.1b", f"{d.short}|the pen draws into the glyph itself and resolves bases in the given glyph set", ok, where(d, pens[0]), detail=T(pens[0], 100),
+    chk.ob(rule, f"{d.short}|the pen draws into the glyph itself and resolves bases in the given glyph set", ok, where(d, pens[0]), detail=T(pens[0], 100),
            message=f"{d.short}: the decomposing pen does not write to the glyph / does not resolve components in the glyph set it was given")
     loops = [n for n in A.body_nodes(d.node) if isinstance(n, ast.For)]
     need(len(loops) == 1, f"cannot interpret {d.short}: component loop")
@@ -108,12 +108,12 @@ def r151b(prog, chk):
     draws = [c for c in A.calls_in(lp) if isinstance(c.func, ast.Attribute) and c.func.attr == "drawPoints" and T(c.func.value) == cv]
     rem = [c for c in A.calls_in(lp) if isinstance(c.func, ast.Attribute) and c.func.attr == "removeComponent" and T(c.args[0]) == cv]
     ok = ok and len(draws) == 1 and len(rem) == 1 and ix.enclosing_stmt(rem[0]) in lp.body and not [s for s in ast.walk(lp) if isinstance(s, (ast.Break, ast.Continue))]
-    chk.ob("R15.1b", f"{d.short}|every component is drawn through the pen, then removed; the loop runs over a copy", ok, where(d, lp), detail="for component in list(glyph.components): component.drawPoints(pen); glyph.removeComponent(component)",
+    chk.ob(rule, f"{d.short}|every component is drawn through the pen, then removed; the loop runs over a copy", ok, where(d, lp), detail="for component in list(glyph.components): component.drawPoints(pen); glyph.removeComponent(component)",
            message=f"{d.short}: a component can be removed without being drawn, kept after being drawn, or skipped")
     early = [r for r in A.returns_of(d.node)]
     ok = len(early) == 1 and any("components" in T(g_.test) for g_ in conds(prog, d, early[0]))
-    chk.ob("R15.1b", f"{d.short}|only glyphs without components return early", ok, where(d), detail="if len(glyph.components) == 0: return", nontrivial=False, message=f"{d.short}: returns early for glyphs that have components")
-    chk.minimum("R15.1b", 3)
+    chk.ob(rule, f"{d.short}|only glyphs without components return early", ok, where(d), detail="if len(glyph.components) == 0: return", nontrivial=False, message=f"{d.short}: returns early for glyphs that have components")
+    chk.minimum(rule, 3)
 
 
 # ----------------------------------------------------------------------------- R15.2
